@@ -333,20 +333,21 @@ func (p *Proxy) handle(conn net.Conn) {
 }
 
 func (p *Proxy) maybeCreateSession(version primitive.ProtocolVersion, keyspace, compression string) (*proxycore.Session, error) {
-	p.sessionsMu.RLock()
-	defer p.sessionsMu.RUnlock()
-	return p.maybeCreateSessionUnlocked(version, keyspace, compression)
+	return p.findSession(version, keyspace, compression)
 }
 
 func (p *Proxy) findSession(version primitive.ProtocolVersion, keyspace, compression string) (*proxycore.Session, error) {
-	p.sessionsMu.RLock()
-	defer p.sessionsMu.RUnlock()
 	key := sessionKey{version: version, keyspace: keyspace, compression: compression}
-	if s, ok := p.sessions[key]; ok {
+	p.sessionsMu.RLock()
+	s, ok := p.sessions[key]
+	p.sessionsMu.RUnlock()
+	if ok {
 		return s, nil
-	} else {
-		return p.maybeCreateSessionUnlocked(version, keyspace, compression)
 	}
+	// The sessions map is modified when creating a new session so this requires the write lock
+	p.sessionsMu.Lock()
+	defer p.sessionsMu.Unlock()
+	return p.maybeCreateSessionUnlocked(version, keyspace, compression)
 }
 
 func (p *Proxy) maybeCreateSessionUnlocked(version primitive.ProtocolVersion, keyspace, compression string) (*proxycore.Session, error) {
